@@ -82,12 +82,21 @@ def check(p, name, c):
     # drawing as bench must leave the original untouched
     if not problems:
         o2 = rebuild(orig)
-        try:
-            o2.into_graphviz_digraph(as_bench=True, draw_blocks=False)
-            if circ.snapshot(o2) != before:
-                problems.append("into_graphviz_digraph(as_bench=True) modified the circuit")
-        except Exception as e:  # noqa: BLE001
-            problems.append(f"into_graphviz_digraph(as_bench=True) raised {type(e).__name__}: {e}")
+        for dl, ar, db in ((False, False, False), (True, True, False), (True, False, True), (False, True, True)):
+            try:
+                o2.into_graphviz_digraph(as_bench=True, draw_blocks=db, draw_labels=dl, autorename_labels=ar)
+                if circ.snapshot(o2) != before:
+                    problems.append("into_graphviz_digraph(as_bench=True) modified the circuit")
+            except Exception as e:  # noqa: BLE001
+                try:
+                    rebuild(orig).into_graphviz_digraph(as_bench=False, draw_blocks=db, draw_labels=dl, autorename_labels=ar)
+                    plain_ok = True
+                except Exception:  # noqa: BLE001
+                    plain_ok = False  # the drawing itself refuses these options for this circuit (e.g. overlapping blocks): not the conversion's doing
+                if plain_ok:
+                    problems.append(f"into_graphviz_digraph(as_bench=True, draw_labels={dl}, autorename_labels={ar}, draw_blocks={db}) raised {type(e).__name__}: {e} (the same drawing without as_bench works)")
+            if problems:
+                break
     if problems:
         types = "+".join(sorted({g.gate_type.name for g in orig.gates.values()} - ALLOWED))[:60]
         p.violation(
@@ -108,7 +117,11 @@ def check(p, name, c):
             "        a=dict(zip(o.inputs,x)); ea=ref_concrete(circ.netlist_of(o),a); eb=ref_concrete(circ.netlist_of(c),a)\n"
             "        d=[l for l in o.gates if ea[l]!=eb[l]]\n"
             "        if d: bad.append(('value',a,d)); break\n"
-            "o.into_graphviz_digraph(as_bench=True, draw_blocks=False)\n"
+            "for dl, ar, db in ((False, False, False), (True, True, False), (True, False, True), (False, True, True)):\n"
+            "    try:\n        o.into_graphviz_digraph(as_bench=True, draw_blocks=db, draw_labels=dl, autorename_labels=ar)\n"
+            "    except Exception as e:\n"
+            "        try:\n            o.into_graphviz_digraph(as_bench=False, draw_blocks=db, draw_labels=dl, autorename_labels=ar); bad.append(('graphviz raised only as bench', type(e).__name__))\n"
+            "        except Exception:\n            pass\n"
             "if circ.snapshot(o)!=before: bad.append('graphviz modified original')\n"
             "print(bad)\nsys.exit(1 if bad else 0)\n",
         )
